@@ -14,6 +14,6 @@ open(p, "w").write(s.replace(old, new, 1))
 PY
 RC=$?
 if [ $RC -eq 0 ]; then
-  VERIF_REPO=$D /venv/bin/python /verif/run_check.py $ID --tier $TIER --no-evidence 2>&1 | grep -E "^(OK|VIOLATION|HARNESS|KNOWN|  clause)" | cut -c1-300 | head -6
+  VERIF_REPO=$D /venv/bin/python /verif/run_check.py $ID --tier $TIER --no-evidence 2>&1 | grep -E "^(OK|VIOLATION|HARNESS|  clause)" | cut -c1-300 | head -6
 fi
 rm -rf $D
